@@ -844,8 +844,9 @@ async fn build_authoritative_response(
 
     #[cfg_attr(not(feature = "__dnssec"), allow(unused_variables))]
     let (ns, soa) = if let Some(answers) = &answers {
-        // SOA queries should return the NS records as well.
-        if query.query_type().is_soa() {
+        // SOA queries should return the NS records as well. Only the apex owns an SOA: anywhere
+        // else the lookup produced a referral, a CNAME or a wildcard match, handled below.
+        if query.query_type().is_soa() && query.name() == handler.origin() {
             // This was a successful authoritative lookup for SOA:
             //   get the NS records as well.
 
